@@ -17,7 +17,13 @@ QABSENT == -1
 QBAD    == -2
 
 MT(t, s, pm)    == [t |-> t, s |-> s, pm |-> pm]
-MR(t, s, pm, q) == [t |-> t, s |-> s, pm |-> pm, q |-> q]
+(* A range AS WRITTEN also has a place for its weight: qp = the number of parameters written BEFORE
+   the q parameter (0 = q first, Len(pm) = q last; Len(pm) when there is no q).  The denotation does
+   not depend on it: every parameter other than q is a media-type parameter wherever it is written
+   (text/html;q=0.5;level=1 is the range text/html;level=1 with weight 0.5), so no operator of this
+   module reads qp.  MediaTypes!Seen states the design decision and its wrong alternative. *)
+MRP(t, s, pm, q, qp) == [t |-> t, s |-> s, pm |-> pm, q |-> q, qp |-> qp]
+MR(t, s, pm, q) == MRP(t, s, pm, q, Len(pm))
 Pm(n, v)        == [n |-> n, v |-> v]
 
 Names(pm)    == {pm[i].n : i \in DOMAIN pm}
